@@ -323,6 +323,23 @@ class Report:
         return rc
 
 
+def lean_imports(module, seen=None):
+    """transitive closure of the project-local imports of a Lean module (names like 'Gen.BmkR')"""
+    seen = set() if seen is None else seen
+    if module in seen:
+        return seen
+    seen.add(module)
+    path = os.path.join(LEAN, *module.split('.')) + '.lean'
+    if not os.path.exists(path):
+        return seen
+    for line in open(path, encoding='utf-8'):
+        if line.startswith('import '):
+            for m in line.split()[1:]:
+                if m.split('.')[0] in ('Model', 'Gen', 'Proofs', 'Props', 'Driver'):
+                    lean_imports(m, seen)
+    return seen
+
+
 def lean_side(rep: Report, prop: str, regen=None):
     """Regenerate translated models (if any), build the property's theorems, audit.
     Returns (ok, reason).  Never reports a violation by itself."""
@@ -333,6 +350,18 @@ def lean_side(rep: Report, prop: str, regen=None):
         _regen.main()
         if regen:
             regen(rep)
+        # a generator that rejected the source leaves its outputs stale: that concerns the properties whose
+        # theorems (transitively) import one of those outputs, and only them
+        st = json.load(open(os.path.join(LEAN, 'Gen', 'regen_status.json')))
+        failed = {g: v for g, v in st['status'].items() if v != 'ok'}
+        if failed:
+            deps = lean_imports('Props.' + prop) | lean_imports('Driver.' + prop)
+            for g, why in failed.items():
+                hit = [m for m in st['outputs'].get(g, []) if m in deps]
+                if hit:
+                    reasons.append('translator %s rejected the source (%s): %s not regenerated' % (g, why, ', '.join(hit)))
+                else:
+                    rep.notes.append('generator %s failed (%s); Props.%s does not depend on its output' % (g, why[:120], prop))
     except Exception as e:  # translator rejected the source
         reasons.append('translator: %r' % (e,))
     ok, log, secs = lake_build(['Props.' + prop])
